@@ -232,6 +232,9 @@ def run(ctx):
         "strops.ints_to_strings": (lambda r: (np.array([r.randint(-10 ** 9, 10 ** 9) for _ in range(r.randint(1, 6))]),), lambda a: strops.ints_to_strings(a)),
         "strops.float_to_strings": (lambda r: (np.array([r.uniform(-5, 5) for _ in range(3)]),), lambda a: strops.float_to_strings(a)),
         "strops.int_lists_to_strings": (lambda r: (RaggedArray([np.array([r.randint(0, 99) for _ in range(r.randint(0, 4))], dtype=int) for _ in range(3)]),), lambda a: strops.int_lists_to_strings(a)),
+        "strops.int_lists_to_strings(view)": (lambda r: (RaggedArray([np.array([r.randint(0, 99) for _ in range(r.randint(0, 4))], dtype=int) for _ in range(5)])[r.choice([np.array([3, 0, 4, 1]), np.array([4, 3, 2, 1, 0]), np.array([True, False, True, True, False]), slice(1, None), slice(None, None, -1)])],),
+                                              lambda a: strops.int_lists_to_strings(a)),
+        "strops.split(list of separators)": (lambda r: (bnp.as_encoded_array(";".join("k%d=v%d" % (i, r.randint(0, 99)) for i in range(r.randint(1, 4)))).copy(), [";", "="]), lambda a, seps: strops.split(a, seps)),
         "strops.join": (lambda r: (enc(dna_rows(r)),), lambda a: strops.join(a, "\t")),
         "strops.split": (lambda r: (bnp.as_encoded_array(",".join(str(r.randint(0, 999)) for _ in range(r.randint(1, 6)))).copy(),), lambda a: strops.split(a, ",")),
         "strops.str_equal": (lambda r: (enc(dna_rows(r)), "ACG"), lambda a, b: strops.str_equal(a, b)),
